@@ -5,7 +5,7 @@ import random
 from .. import engineb as eb
 from ..runner import jdump
 
-RUNS = {"quick": 600, "thorough": 40000}
+RUNS = {"quick": 600, "thorough": 20000}
 DUP = {"quick": 32, "thorough": 256}
 WALL = {"quick": 1500, "thorough": 6 * 3600}
 RUN_TIMEOUT = {"quick": 600, "thorough": 900}
@@ -58,6 +58,8 @@ def make_case(ns, i, rng, tier):
         profile = {"chain": 0.9, "n_stmts": (4, 20)}
     elif k < 0.5:
         profile = {"include": 0.0, "insert": 0.0, "multi": 0.0, "n_stmts": (2, 12), "n_consts": (1, 6), "symbolic": 0.95}
+    if tier == "thorough" and rng.random() < 0.4:
+        profile = dict(profile, n_stmts=(10, 80), n_consts=(4, 20), n_labels=(0, 10))
     return eb.generated_case(rng, profile)
 
 
@@ -119,7 +121,7 @@ def run_one(ns, i, seed_i, tier):
     sched_budget = max(400_000, 8 * obs0["forces"])
     if case.defs and not expensive and o0[0] != "BUDGET":
         counters["probe:program_has_eligible_defs"] += 1
-        nsched = rng.randint(6, 24) if case.origin == "gen" else (6 if tier == "quick" else 16)
+        nsched = (rng.randint(6, 24) if tier == "quick" else rng.randint(12, 40)) if case.origin == "gen" else (6 if tier == "quick" else 16)
         scheds = eb.make_schedules(rng, case, nsched)
         seen = set()
         for sched in scheds:
